@@ -203,6 +203,11 @@ func runCheck(prop, tier string, overlay map[string][]byte, seed int) (*checkOut
 	}
 	wg.Wait()
 	oc.reports = reports
+	if os.Getenv("ACV_VERBOSE") != "" {
+		for _, r := range reports {
+			fmt.Printf("  func %-90s enc %.1fs total %.1fs obls %d cands %d/%d\n", r.Key, r.EncodeTime, r.TotalTime, len(r.Results), r.CandsKept, r.Cands)
+		}
+	}
 	// lemmas and structural obligations
 	oc.lemmaRes = p.checkLemmas(prop, opts)
 	oc.structRes = p.checkStructurals(prop)
@@ -341,6 +346,14 @@ func classify(p *Prog, oc *checkOutcome, work string, doReplay bool) {
 					violation(name, "solver-error", path, false)
 				}
 			default: // unknown / timeout
+				if r.Relaxed && doReplay {
+					// candidate counterexample from the quantifier-free slice: only a replay on the real code counts
+					ro := p.replayObligation(r, work, replayDir)
+					if ro.Reproduced {
+						violation(name, "counterexample(relaxed-query)", ro.Path, true)
+						continue
+					}
+				}
 				if baseline[name] {
 					path := writeNote(name, fmt.Sprintf("obligation: %s\nkind: %s\nThis obligation was discharged on the unchanged tree (it is in expected_obligations.json) and is no longer discharged: verdict %s.\nposition: %s\n--- solver output ---\n%s\n", name, r.O.Kind, r.Res.Verdict, r.O.Pos, r.Res.Output))
 					violation(name, "undecided", path, false)
@@ -430,8 +443,9 @@ func writeEvidence(oc *checkOutcome, seed int, wall float64) {
 	trusted := []string{
 		"A1 go/ssa translation, Go compiler/runtime, SMT solvers (raced: z3-new 5.1.0, cvc5 1.0, z3 4.8.12), the acv VC generator",
 		"A2 GOARCH=amd64: int is a 64-bit bit-vector (no mathematical integers anywhere)",
-		"A3 every slice/string has 0 <= len <= cap <= 2^48",
-		"A4 calls without contract/model: results and memory reachable from pointer/slice arguments are havocked, nothing else changes",
+		"A3 every slice/string has 0 <= len <= cap <= 2^47",
+		"A4 calls without contract/model: results and memory reachable from pointer/non-byte-slice arguments are havocked, nothing else changes",
+		"A4b callees without contract/model do not write through []byte arguments unless their name is on the write list (Read*, Zeroize*, Put*, Encode/Decode, copy-like, Seal/Open, Sum, Unmarshal)",
 		"A8 functions are verified as sequential programs (no interleavings)",
 		"A12 pointer/interface parameters, receivers and collaborator fields loaded from them are non-nil",
 	}
